@@ -69,6 +69,12 @@ pub fn variant_tag() -> &'static str {
     let v = current_variant();
     if stream_variant() {
         " [stream loop]"
+    } else if v.builder_order != 0 {
+        match v.builder_order {
+            1 => " [builder: fail_on_timeout, timeout, mailbox]",
+            2 => " [builder: mailbox, timeout, fail_on_timeout]",
+            _ => " [builder: mailbox, fail_on_timeout, timeout]",
+        }
     } else if v.generous_timeout && v.recreate {
         " [timeout 50, recreate]"
     } else if v.generous_timeout {
@@ -88,10 +94,12 @@ pub struct Variant {
     pub generous_timeout: bool,
     /// use recreate-from-default where the case would use the default strategy
     pub recreate: bool,
+    /// order in which the builder's timeout options are given (see `spawn_probe_ordered`)
+    pub builder_order: u8,
 }
 
 thread_local! {
-    static VARIANT: std::cell::Cell<Variant> = const { std::cell::Cell::new(Variant { generous_timeout: false, recreate: false }) };
+    static VARIANT: std::cell::Cell<Variant> = const { std::cell::Cell::new(Variant { generous_timeout: false, recreate: false, builder_order: 0 }) };
 }
 
 /// Runs a case generator with a neutral-configuration variant switched on (see [`Variant`]).
@@ -133,7 +141,7 @@ impl<X> Scene for ProgScene<X> {
                 if self.variant.recreate && spawn.strat == crate::scenes::Strat::Default {
                     spawn.strat = crate::scenes::Strat::Recreate;
                 }
-                let o = spawn_probe(0, spawn);
+                let o = crate::scenes::spawn_probe_ordered(0, spawn, self.variant.builder_order);
                 let b = o.to_addr();
                 (Some(o), b)
             }
